@@ -10,22 +10,25 @@ import (
 
 // Cfg tunes the type generator.
 type Cfg struct {
-	MaxDepth    int      // nesting of containers (default 3)
-	MaxFields   int      // fields per struct (default 5)
-	Leaves      []string // allowed leaf kinds (default: all scalars, string, bytes, bytearr)
-	Containers  []string // allowed container kinds among slice array map ptr struct any (default all)
-	MapKeys     []string // allowed map key kinds (default string + ints + uints)
-	Tags        bool     // random names / omitzero / omitempty / string / case options
-	Formats     bool     // format: tag options (caller must pass ExperimentalSupportFormatTag(true))
-	Embedding   bool     // Go-embedded structs and pointers to structs
-	BigStructs  bool     // occasionally 65..140 fields
-	EscapeNames bool     // JSON names needing escapes
-	TimeKinds   bool     // time.Time and time.Duration leaves (Duration only with a format or legacy option)
-	DurNoFormat bool     // allow time.Duration without a format tag (v1 FormatDurationAsNano semantics)
-	Raw         bool     // jsontext.Value leaves
-	TopStruct   bool     // force a struct at the top
-	CollideNames bool     // let JSON names of embedded structs collide with outer names (C15)
-	LegacyString bool    // allow the `string` option on bool/string fields too (valid only with v1 semantics)
+	MaxDepth     int                           // nesting of containers (default 3)
+	MaxFields    int                           // fields per struct (default 5)
+	Leaves       []string                      // allowed leaf kinds (default: all scalars, string, bytes, bytearr)
+	Containers   []string                      // allowed container kinds among slice array map ptr struct any (default all)
+	MapKeys      []string                      // allowed map key kinds (default string + ints + uints)
+	Tags         bool                          // random names / omitzero / omitempty / string / case options
+	Formats      bool                          // format: tag options (caller must pass ExperimentalSupportFormatTag(true))
+	Embedding    bool                          // Go-embedded structs and pointers to structs
+	BigStructs   bool                          // occasionally 65..140 fields
+	EscapeNames  bool                          // JSON names needing escapes
+	TimeKinds    bool                          // time.Time and time.Duration leaves (Duration only with a format or legacy option)
+	DurNoFormat  bool                          // allow time.Duration without a format tag (v1 FormatDurationAsNano semantics)
+	Raw          bool                          // jsontext.Value leaves
+	TopStruct    bool                          // force a struct at the top
+	CollideNames bool                          // let JSON names of embedded structs collide with outer names (C15)
+	PoolLeaves   []string                      // pool kinds ("pool:Name") usable as leaves
+	PoolKeys     []string                      // pool kinds usable as map keys
+	PoolGen      map[string]func(*rapid.T) Val // value generators for pool kinds
+	LegacyString bool                          // allow the `string` option on bool/string fields too (valid only with v1 semantics)
 }
 
 var allLeaves = []string{"bool", "int", "int8", "int16", "int32", "int64", "uint", "uint8", "uint16", "uint32", "uint64", "float32", "float64", "string", "string", "bytes", "bytearr"}
@@ -34,7 +37,6 @@ var allMapKeys = []string{"string", "string", "int", "int8", "int64", "uint", "u
 
 var plainNames = []string{"a", "b", "c", "name", "id", "value", "key", "x", "y", "A", "B", "Name", "ID", "fooBar", "foo_bar", "foo-bar", "FOO", "0", "1", "é", "日本", "😀", "k", "v", "data", "n"}
 var escNames = []string{"a<b", "x>y", "a&b", "tab\there", "nl\nx", "null\x00byte", " ", " ", "\x7f", "sp ace", "", "~", "/", "a/b", "~0", "\U00010000", "", "￿"}
-
 
 func pick(t *rapid.T, label string, xs []string) string {
 	return rapid.SampledFrom(xs).Draw(t, label)
@@ -80,6 +82,9 @@ func (g *descGen) leaf() *Desc {
 	if g.cfg.Raw && rapid.IntRange(0, 12).Draw(t, "rawleaf") == 0 {
 		k = "raw"
 	}
+	if len(g.cfg.PoolLeaves) > 0 && rapid.IntRange(0, 2).Draw(t, "poolleaf") == 0 {
+		k = pick(t, "poolkind", g.cfg.PoolLeaves)
+	}
 	d := &Desc{K: k}
 	if k == "bytearr" {
 		d.Len = rapid.IntRange(0, 5).Draw(t, "balen")
@@ -98,7 +103,11 @@ func (g *descGen) desc(depth int) *Desc {
 	case "array":
 		return &Desc{K: "array", Len: rapid.IntRange(0, 3).Draw(t, "alen"), Elem: g.desc(depth - 1)}
 	case "map":
-		return &Desc{K: "map", Key: &Desc{K: pick(t, "mapkey", g.cfg.MapKeys)}, Elem: g.desc(depth - 1)}
+		key := &Desc{K: pick(t, "mapkey", g.cfg.MapKeys)}
+		if len(g.cfg.PoolKeys) > 0 && rapid.IntRange(0, 2).Draw(t, "poolkey") == 0 {
+			key = &Desc{K: pick(t, "poolkeykind", g.cfg.PoolKeys)}
+		}
+		return &Desc{K: "map", Key: key, Elem: g.desc(depth - 1)}
 	case "ptr":
 		return &Desc{K: "ptr", Elem: g.desc(depth - 1)}
 	case "any":
@@ -252,13 +261,15 @@ func (g *descGen) strctIn(depth int, used map[string]bool) *Desc {
 
 // ValCfg tunes the value generator.
 type ValCfg struct {
-	BadUTF8      bool // strings may be ill-formed UTF-8
-	NonFinite    bool // floats may be NaN / Inf
-	AnyCanonical bool // interface values hold only nil, bool, string, float64, []any, map[string]any
-	AnyDescs     Cfg  // type universe for interface contents when !AnyCanonical
-	MaxLen       int  // max container length (default 3)
-	RawInvalid   bool // jsontext.Value leaves may hold arbitrary bytes
-	TimeWide     bool // times outside year 0..9999
+	BadUTF8      bool                          // strings may be ill-formed UTF-8
+	NonFinite    bool                          // floats may be NaN / Inf
+	AnyCanonical bool                          // interface values hold only nil, bool, string, float64, []any, map[string]any
+	AnyDescs     Cfg                           // type universe for interface contents when !AnyCanonical
+	PoolGen      map[string]func(*rapid.T) Val // value generators for pool kinds
+	AnyKeyPool   []string                      // extra kinds for interface-typed map keys
+	MaxLen       int                           // max container length (default 3)
+	RawInvalid   bool                          // jsontext.Value leaves may hold arbitrary bytes
+	TimeWide     bool                          // times outside year 0..9999
 }
 
 var int64Edges = []int64{0, 1, -1, 2, 7, 10, 100, 127, 128, -128, -129, 255, 256, 32767, 32768, -32768, 65535, 65536, 1<<31 - 1, 1 << 31, -(1 << 31), 1<<32 - 1, 1 << 32, 1<<53 - 1, 1 << 53, 1<<53 + 1, -(1 << 53) - 1, math.MaxInt64, math.MinInt64, math.MaxInt64 - 1, math.MinInt64 + 1, 999999999, 1000000000, 1000000001, -999999999, -1000000000, -1000000001, 9999999999999, 1e15, 1e18, 1e18 + 1, -1e18}
@@ -352,6 +363,12 @@ var canonAnyKinds = []*Desc{{K: "bool"}, {K: "string"}, {K: "float64"}, {K: "sli
 
 func (g *valGen) val(d *Desc, budget int) Val {
 	t := g.t
+	if _, ok := Pool(d.K); ok {
+		if gen := g.vc.PoolGen[d.K]; gen != nil {
+			return gen(t)
+		}
+		return Val{}
+	}
 	switch {
 	case d.K == "bool":
 		return Val{B: rapid.Bool().Draw(t, "bool")}
@@ -463,7 +480,16 @@ func (g *valGen) val(d *Desc, budget int) Val {
 		seen := map[string]bool{}
 		for i := 0; i < n; i++ {
 			k := g.val(d.Key, budget-1)
+			if d.Key.K == "any" {
+				// interface-typed keys must hold hashable values
+				dyn := &Desc{K: pick(t, "anykeykind", append([]string{"int", "string", "bool", "float64", "int8", "uint"}, g.vc.AnyKeyPool...))}
+				k = Val{Dyn: dyn, Elems: []Val{g.val(dyn, 1)}}
+			}
 			ks := fmt.Sprintf("%v|%v|%v|%s", k.B, k.I, k.U, k.S)
+			if k.Dyn != nil && len(k.Elems) > 0 {
+				e := k.Elems[0]
+				ks = fmt.Sprintf("%s|%v|%v|%v|%s", k.Dyn.K, e.B, e.I, e.U, e.S)
+			}
 			if seen[ks] {
 				continue
 			}
